@@ -72,7 +72,7 @@ def cases(draw):
         i = draw(st.integers(0, len(keys) - 1))
         spec = m.specs[(t, keys[i])]
         alts = [f[keys[i]]] + [draw(st.one_of(gens.entity_value(m, t, keys[i]), st.just("zz"))) for _ in range(draw(st.integers(1, 2)))]
-        alts = list(dict.fromkeys(alts))
+        alts = list(draw(st.permutations(list(dict.fromkeys(alts)))))   # the existing value is not always the first alternative
         sep = draw(st.sampled_from([",", ", "]))
         base = list(segs)
         base[i] = sep.join(alts)
